@@ -131,3 +131,21 @@ Theorem C16_v2_hashes_found : forall (H256 : bytes -> bytes) pl f,
            (ceil_div (v2_len f) pl - length (v2_disk_hashes (v2_disk f)))).
 Proof. exact v2_file_spec_disk_hashes. Qed.
 Print Assumptions C16_v2_hashes_found.
+
+(* ---------------------------------------------------------------------------------------------- *)
+(* the denominator: Checker.check_paths (Model/CheckPaths.v)                                      *)
+(* ---------------------------------------------------------------------------------------------- *)
+From TF Require Import Model.Bencode Model.CheckPaths Proofs.CheckPathsProofs.
+
+(* `total` is the sum of the lengths RECORDED in the metafile for the listed entries, for every metafile shape (no size on
+   disk is an input of check_paths: the model has no such parameter) *)
+Theorem C16_total_is_sum_of_recorded_lengths : forall info name root root_is_file fis total,
+  check_paths info name root root_is_file = Some (fis, total) -> total = sum_lengths fis.
+Proof. exact check_paths_total. Qed.
+Print Assumptions C16_total_is_sum_of_recorded_lengths.
+
+(* every file the checker opens lies under the root it settled on *)
+Theorem C16_checked_paths_under_root : forall info name root root_is_file fis total,
+  check_paths info name root root_is_file = Some (fis, total) -> Forall (under root) fis.
+Proof. exact check_paths_under_root. Qed.
+Print Assumptions C16_checked_paths_under_root.
